@@ -207,6 +207,18 @@ class C14(Prop):
         out.append(val_case('return "a.c" ~= /a.c/;', True))
         out.append(val_case('abc = "xyz"; return [abc ~= /abc/, "abc" ~= /abc/, type(/abc/), type("abc")];', [False, True, "regexp", "string"]))
         out.append(val_case('root = 1; return [type(/root/), "root", root];', ["regexp", "root", 1]))
+        # what a REGEXP literal denotes once parsed (the parser splits a leading `(?flags)` group off the literal): a pattern made of
+        # literal text - any Unicode - in groups matches exactly that text; i makes it case-blind
+        words = ["é", "ab", "ő", "πρ", "日本", "x", "Éa", "ñ"] + ["".join(rng.choice("abéőπ日ñzÉ") for _ in range(rng.randint(1, 4))) for _ in range(60 if big else 12)]
+        for w in words:
+            other = w + "q"
+            for pat, subj, want in [("(?:%s)" % w, w, True), ("(?:%s)$" % w, other, False), ("^(?:%s)b" % w, w + "b", True), ("(%s)" % w, w, True),
+                                    ("(?i:%s)" % w, w.upper(), True), ("(?i)%s" % w, w.upper(), True), ("(?i)^%s$" % w, other.upper(), False),
+                                    ("^(?:%s)(?:%s)$" % (w, w), w + w, True), ("(?:%s)|zz" % w, "zz", True), ("(?U:%s+)x" % w, w + w + "x", True)]:
+                out.append(val_case('return "%s" ~= /%s/;' % (subj, pat), want, "regexp-values"))
+                out.append(val_case('return "%s" !~ /%s/;' % (subj, pat), not want, "regexp-values"))
+            out.append(val_case('return "%s" ~= /(?:%s)/i;' % (w.upper(), w), True, "regexp-values"))
+            out.append(val_case('return "%s" ~= /^(?:%s)$/m;' % ("k\n" + w, w), True, "regexp-values"))
         for t in ["0x10", "0b11", "0o17", "1_000", "1e3", "0xff", "12abc"]:
             out.append(val_case("return %s;" % t, NotImplemented))
         # ranges: 1..3 is INT DOTDOT INT
